@@ -67,6 +67,17 @@ class Color(enum.Enum):
     RED = 1; BLUE = 2
 Point = collections.namedtuple('Point', 'x y')
 def some_function(x): return x
+class Handle:
+    """reduced through a function registered with copyreg.pickle (the table pickle consults BEFORE __reduce_ex__): only `path` survives, the rest is rebuilt"""
+    def __init__(self, path): self.path = path; self.cache = {}; self.generation = 0
+def _reduce_handle(h): return (Handle, (h.path,))
+import copyreg as _copyreg
+_copyreg.pickle(Handle, _reduce_handle)
+def dispatch_table_objects():
+    """objects whose exact type has an entry in copyreg.dispatch_table"""
+    import re as _re
+    h = Handle('/srv/data'); h.cache.update(a=0, b=1); h.generation = 2
+    return {'copyreg_handle': h, 'copyreg_shared': {'all': [h, h], 'primary': h}, 're_pattern': _re.compile('a+b', _re.I), 're_pattern_bytes': [_re.compile(b'x.y', _re.S)]}
 
 SLOT_CLASSES = (Slots, SlotsChild, SlotsAndDict)
 def canon(root):
